@@ -28,7 +28,7 @@ type hostShape struct {
 }
 
 type reqSpec struct {
-	Kind string `json:"kind"` // to | from | auto | forced | worker | none
+	Kind string `json:"kind"` // to | from | auto | forced | forcedto | worker | none
 	To   string `json:"to,omitempty"`
 	From string `json:"from,omitempty"`
 }
@@ -454,6 +454,10 @@ func (s *vSim) fileRequest(sc *vScenario) {
 	case "forced":
 		sw.Cause = CauseManual
 		sw.MasterTransition = FailoverTransition
+	case "forcedto":
+		sw.Cause = CauseManual
+		sw.MasterTransition = FailoverTransition
+		sw.From = ""
 	case "worker":
 		sw.Cause = CauseWorker // no transition, as the project's worker writes it
 	}
